@@ -16,11 +16,14 @@ use super::try_sync_error::*;
 use std::fmt;
 use std::mem;
 use std::sync::*;
+#[cfg(desync_verif)] use vsched::sync::{Mutex, Condvar};
 use std::collections::vec_deque::*;
 use std::result::{Result};
 
 use futures::prelude::*;
+#[cfg(not(desync_verif))]
 use futures::channel::oneshot;
+#[cfg(desync_verif)] use vsched::oneshot;
 use futures::future::{Future};
 
 #[cfg(not(target_arch = "wasm32"))]
@@ -94,6 +97,14 @@ impl Scheduler {
     #[cfg(target_arch = "wasm32")]
     pub fn set_max_threads(&self, max_threads: usize) {
         // Webassembly does not support threads so we run synchronously
+    }
+
+    ///
+    /// Verification hook: changes the maximum number of threads without eagerly starting any
+    ///
+    #[cfg(desync_verif)]
+    pub fn verif_set_max_threads(&self, max_threads: usize) {
+        *self.core.max_threads.lock().expect("Max threads lock") = max_threads;
     }
 
     ///
